@@ -363,11 +363,29 @@ func (g *Engine) injectShare(miner common.Address, data []byte) *WorkShare {
 		g.Stats["share_rejected_by_worker"]++
 		return nil
 	}
-	g.nextWS++
-	w := &WorkShare{ID: g.nextWS, Hdr: ws, Miner: g.minerID(miner), Number: ws.NumberU64()}
+	w := &WorkShare{Hdr: ws, Miner: g.minerID(miner), Number: ws.NumberU64()}
+	w.ID = g.wsID(w.Number, w.Miner, data[0])
 	g.shares[ws.Hash()] = w
 	g.Stats["shares_injected"]++
 	return w
+}
+
+// wsID: the id of a work share encodes its attributes (number * 10000 + miner * 100 + lockup byte * 10 + sequence digit)
+func (g *Engine) wsID(number uint64, miner int, b uint8) int {
+	base := int(number)*10000 + miner*100 + int(b)*10
+	for seq := 0; seq < 10; seq++ {
+		used := false
+		for _, w := range g.shares {
+			if w.ID == base+seq {
+				used = true
+			}
+		}
+		if !used {
+			return base + seq
+		}
+	}
+	fatalf("too many work shares with the same attributes")
+	return 0
 }
 
 // ---------------------------------------------------------------- observation / oracle
@@ -556,8 +574,8 @@ func (g *Engine) observe(id int, p Profile) {
 			b.Uncles = append(b.Uncles, w.ID)
 		} else if _, known := g.S.ID(u.Hash()); known {
 			// a block of an abandoned branch, included as an uncle by the worker
-			g.nextWS++
-			w := &WorkShare{ID: g.nextWS, Hdr: u, Miner: g.minerID(u.PrimaryCoinbase()), Number: u.NumberU64()}
+			w := &WorkShare{Hdr: u, Miner: g.minerID(u.PrimaryCoinbase()), Number: u.NumberU64()}
+			w.ID = g.wsID(w.Number, w.Miner, u.Data()[0])
 			g.shares[u.Hash()] = w
 			g.Events = append(g.Events, map[string]interface{}{"op": "share", "id": w.ID, "miner": w.Miner, "number": int(w.Number), "byte": int(u.Data()[0]), "uncle_block": true})
 			b.Uncles = append(b.Uncles, w.ID)
